@@ -516,7 +516,12 @@ def run_reuse_case(spec):
     ses = _DMSession(spec)
     reused = [ses.run(e) for e in spec["runs"]]
     fresh = [_DMSession(spec).run(e) for e in spec["runs"]]
-    return {"spec": spec, "reused": reused, "fresh": fresh}
+    out = {"spec": spec, "reused": reused, "fresh": fresh}
+    twin = {"L_BFGS": "VL_BFGS", "VL_BFGS": "L_BFGS"}.get(spec["minimizer"])
+    if twin:
+        ts = _DMSession(dict(spec, minimizer=twin))
+        out["twin"] = [ts.run(e) for e in spec["runs"]]
+    return out
 
 
 def epoch_windows(o, mh):
@@ -554,6 +559,24 @@ def reuse_failure(o):
             if not np.allclose(pk, -g, rtol=1e-12, atol=0.0):
                 return "run %d: first direction of a re-used %s is not -gradient (relative deviation %.3g)" % (
                     r, kind, float(np.linalg.norm(pk + g) / (np.linalg.norm(g) + 1e-300)))
+        if kind in ("L_BFGS", "VL_BFGS", "SteepestDescent"):
+            # a line search that reports failure makes the loop call self.reset(): the next direction
+            # starts from an empty history again
+            for (x, g, pk, nls) in a["dirs"]:
+                if nls > 0 and not a["ls"][nls - 1][3] and not np.allclose(pk, -g, rtol=1e-12, atol=0.0):
+                    return "run %d: direction of %s after a reset (failed line search) is not -gradient (relative deviation %.3g)" % (
+                        r, kind, float(np.linalg.norm(pk + g) / (np.linalg.norm(g) + 1e-300)))
+        if o.get("twin"):
+            # the two L-BFGS variants, same energy, same configuration: same direction at every
+            # iteration for as long as the two trajectories coincide
+            t = o["twin"][r]
+            for (x, g, pk, _), (x2, g2, pk2, _) in zip(a["dirs"], t["dirs"]):
+                sc = np.linalg.norm(x) + np.linalg.norm(x2) + 1e-300
+                if np.linalg.norm(x - x2) > 1e-9 * sc or not (np.all(np.isfinite(pk)) and np.all(np.isfinite(pk2))):
+                    break
+                dev = float(np.linalg.norm(pk - pk2) / (np.linalg.norm(pk) + np.linalg.norm(pk2) + 1e-300))
+                if dev > 1e-6:
+                    return "run %d: L_BFGS and VL_BFGS directions differ by %.3g (relative) at the same point with the same history" % (r, dev)
         same = (a["result"] == b["result"] and a["values"] == b["values"] and a["ls"] == b["ls"]
                 and a["acc"] == b["acc"] and a["start"] == b["start"] and a["checks"] == b["checks"]
                 and len(a["dirs"]) == len(b["dirs"])
@@ -858,6 +881,22 @@ def gen_reuse_spec(rng, i):
     return {"minimizer": kind, "mh": int(rng.integers(1, 5)), "ctrl": ctrl, "runs": runs}
 
 
+def gen_reset_spec(rng, i):
+    """Runs with mid-run resets: a step limit / very few zoom or first-stage iterations make the line
+    search report failure although the energy went down, so the loop resets the minimiser and goes on."""
+    sp = gen_reuse_spec(rng, i)
+    sp["minimizer"] = ["VL_BFGS", "L_BFGS", "VL_BFGS", "L_BFGS", "SteepestDescent"][i % 5]
+    u = int(rng.integers(0, 3))
+    sp["ls_params"] = {"pref": None, "c1": 1e-4, "c2": [0.9, 0.1][int(rng.integers(0, 2))],
+                       "max_step": [0.08, 0.3, 1e30][u] if u < 2 else 1e30,
+                       "max_it": 100 if u < 2 else int(rng.integers(1, 3)),
+                       "max_zoom": 100 if u < 2 else int(rng.integers(1, 3))}
+    sp["ctrl"] = {"kind": "gradnorm", "tol": 1e-9, "limit": int(rng.integers(5, 11))}
+    for r in sp["runs"]:
+        r["x0"] = (3.0 * np.array(r["x0"])).tolist()
+    return sp
+
+
 def gen_bfgs_spec(rng, i):
     return {"n": int(rng.integers(1, 9)), "mh": int(1 + i % 5), "seed": int(rng.integers(0, 1 << 30)),
             "cond": float(rng.choice([1.5, 10.0, 100.0])), "steps": int(rng.integers(2, 14)),
@@ -921,6 +960,8 @@ class C16(C.Check):
         rrng = ctx.rng(1616)          # own stream: the earlier case lists stay exactly as they were
         self.reuse_specs = [c["spec"] for c in ctx.corpus() if c.get("kind") == "reuse"]
         self.reuse_specs += [gen_reuse_spec(rrng, i) for i in range(15 if ctx.quick else 150)]
+        qrng = ctx.rng(1617)
+        self.reuse_specs += [gen_reset_spec(qrng, i) for i in range(10 if ctx.quick else 100)]
         return ls, dm, bf
 
     def correspondence(self, ctx, res):
